@@ -16,272 +16,14 @@ VALZ = finite.Falsy('VALUE0')      # a non-NULL value that is false: 0, '', Deci
 CURZ = finite.Falsy('CURRENT0')
 
 
-def _same(a, b):
-    return a is b or (isinstance(a, finite.Sym) and isinstance(b, finite.Sym) and a.name.rstrip('0') == b.name.rstrip('0'))
 
 
-def _is_slot(e):
-    return (isinstance(e, ast.Subscript) and isinstance(e.value, ast.Name) and e.value.id == 'store'
-            and ast.unparse(e.slice) == 'self.handle')
 
 
-class AggMachine(finite.Machine):
-    """Executes an aggregator's update() for one (operand value class, slot state, ordering outcome)."""
-
-    def __init__(self, value, slot, order):
-        super().__init__(call=self._call, subscript=self._sub, order=self._order,
-                         names={'self': finite.Sym('self'), 'store': finite.Sym('store'), 'context': finite.Sym('ctx')})
-        self.value = value
-        self.slot = slot
-        self.ord = order   # 'lt' | 'eq' | 'gt'  (value relative to current)
-        self.reads_operand = 0
-        self.query_answer = True      # answer given to a state query on the accumulator (`store[h].is_empty()`)
-        self.queries = 0
-        self.aliases = set()
-
-    def _call(self, e, st, m):
-        src = ast.unparse(e.func)
-        if src.startswith('self.operands[') and len(e.args) == 1 and ast.unparse(e.args[0]) == 'context':
-            self.reads_operand += 1
-            return self.value
-        is_acc = isinstance(e.func, ast.Attribute) and (_is_slot(e.func.value) or (
-            isinstance(e.func.value, ast.Name) and e.func.value.id in self.aliases))
-        if is_acc and not e.args and not e.keywords:
-            # a question asked of the accumulator: both answers are explored by the rule
-            self.queries += 1
-            return self.query_answer
-        if src in ('min', 'max') and len(e.args) == 2 and not e.keywords:
-            a, b = (self.ev(x, st) for x in e.args)
-            if a is None or b is None:
-                self.events.append(('null-compare', src))
-                return a if b is None else b
-            if a == b:
-                return a
-            # min(a, b) returns b iff b < a
-            lt = self._order(ast.Lt(), b, a)
-            if src == 'min':
-                return b if lt else a
-            gt = self._order(ast.Gt(), b, a)
-            return b if gt else a
-        return NotImplemented
-
-    def _sub(self, e, st, m):
-        if _is_slot(e):
-            return self.slot
-        raise AnalysisError(f'aggregate update: unsupported subscript {ast.unparse(e)}')
-
-    def _order(self, op, left, right):
-        if left is None or right is None:
-            self.events.append(('null-compare', type(op).__name__))
-            return False
-        isv = lambda x: x in (VAL, VALZ)
-        isc = lambda x: x in (CUR, CURZ)
-        if isv(left) and isc(right):
-            rel = self.ord
-        elif isc(left) and isv(right):
-            rel = {'lt': 'gt', 'gt': 'lt', 'eq': 'eq'}[self.ord]
-        elif isv(left) and isv(right) or isc(left) and isc(right):
-            rel = 'eq'
-        else:
-            raise AnalysisError('aggregate update: ordering comparison between unexpected operands')
-        return {ast.Lt: rel == 'lt', ast.Gt: rel == 'gt', ast.LtE: rel in ('lt', 'eq'), ast.GtE: rel in ('gt', 'eq')}[type(op)]
-
-    def stmt(self, s, st):
-        if isinstance(s, ast.Assign) and len(s.targets) == 1 and isinstance(s.targets[0], ast.Name):
-            # a local name for the accumulator object (`total = store[self.handle]`): the same object under another name
-            if _is_slot(s.value):
-                self.aliases.add(s.targets[0].id)
-            else:
-                self.aliases.discard(s.targets[0].id)
-        if isinstance(s, ast.Expr) and isinstance(s.value, ast.Call) and isinstance(s.value.func, ast.Attribute) \
-                and isinstance(s.value.func.value, ast.Name) and s.value.func.value.id in self.aliases:
-            self.events.append(('mut', s.value.func.attr, tuple(self.ev(a, st) for a in s.value.args)))
-            return st
-        if isinstance(s, ast.Assign) and len(s.targets) == 1 and _is_slot(s.targets[0]):
-            v = self.ev(s.value, st)
-            self.events.append(('write', v))
-            self.slot = v
-            return st
-        if isinstance(s, ast.AugAssign) and _is_slot(s.target):
-            self.events.append(('aug', type(s.op).__name__, self.ev(s.value, st)))
-            return st
-        if isinstance(s, ast.Expr) and isinstance(s.value, ast.Call) and isinstance(s.value.func, ast.Attribute) \
-                and _is_slot(s.value.func.value):
-            self.events.append(('mut', s.value.func.attr, tuple(self.ev(a, st) for a in s.value.args)))
-            return st
-        if isinstance(s, (ast.Assign, ast.AugAssign)):
-            tgt = s.targets[0] if isinstance(s, ast.Assign) else s.target
-            if isinstance(tgt, ast.Attribute):
-                self.events.append(('self-write', ast.unparse(tgt)))
-                return st
-            if isinstance(tgt, ast.Subscript):
-                self.events.append(('foreign-write', ast.unparse(tgt)))
-                return st
-        return super().stmt(s, st)
 
 
-def _run_update(fi, value, slot, order='gt', query_answer=True):
-    m = AggMachine(value, slot, order)
-    m.query_answer = query_answer
-    try:
-        m.run(body_without_docstring(fi.node), {})
-    except finite.Return:
-        pass
-    return m
 
 
 MUTATOR_FOR = {amount.Amount: 'add_amount', position.Position: 'add_position', inventory.Inventory: 'add_inventory'}
 
 
-def rule_aggclass(P) -> RuleResult:
-    res = RuleResult('R-AGGCLASS')
-    res.exhaustive = True
-    reg = registry.get(P)
-    aggs = [f for f in reg.funcs if f.kind == 'aggregator']
-    if not aggs:
-        raise AnalysisError('anchor vanished: no aggregate functions registered')
-    for f in aggs:
-        ci = f.cls.info
-        construct = f'aggregate:{f.label}'
-        upd = P.find_method(ci, 'update')
-        ini = P.find_method(ci, 'initialize')
-        fin = P.find_method(ci, 'finalize')
-        call = P.find_method(ci, '__call__')
-        if not all(isinstance(x, FuncInfo) for x in (upd, ini, fin, call)):
-            raise AnalysisError(f'{ci.fq}: aggregator protocol methods not found')
-        where = loc(upd)
-        n0 = len(res.findings)
-
-        def fail(detail, msg):
-            res.fail(construct, 'aggclass:' + detail, f'{f.label} ({ci.name}): {msg}', where)
-
-        # --- isolation: update writes only its own slot; nothing on self, nothing foreign
-        cases = []
-        slots = [None, CUR, CURZ]
-        for value in (None, VAL, VALZ):
-            for slot in slots:
-                for order in ('lt', 'eq', 'gt'):
-                    try:
-                        m = _run_update(upd, value, slot, order)
-                    except AnalysisError as exc:
-                        raise AnalysisError(f'{ci.fq}.update: {exc}') from exc
-                    cases.append((value, slot, order, m))
-                    if m.queries:
-                        cases.append((value, slot, order, _run_update(upd, value, slot, order, query_answer=False)))
-        for value, slot, order, m in cases:
-            for e in m.events:
-                if e[0] == 'null-compare':
-                    fail('null-order', 'a NULL value (or an empty slot) reaches an ordering comparison in update(): TypeError at run time')
-                if e[0] == 'self-write':
-                    fail('isolation', f'update() writes `{e[1]}`: state kept on the node leaks between groups')
-                if e[0] == 'foreign-write':
-                    fail('isolation', f'update() writes `{e[1]}` instead of its own slot store[self.handle]')
-        # --- initialize: fresh value per group
-        writes = [n for n in ast.walk(ini.node) if isinstance(n, ast.Assign) and _is_slot(n.targets[0])]
-        if len(writes) != 1:
-            fail('initialize', 'initialize() must bind store[self.handle] exactly once')
-            init_kind = None
-        else:
-            v = writes[0].value
-            if is_none(v):
-                init_kind = 'null'
-            elif isinstance(v, ast.Call) and ast.unparse(v.func) == 'self.dtype' and not v.args:
-                init_kind = 'zero'
-            elif isinstance(v, ast.Call):
-                init_kind = 'fresh'
-            elif isinstance(v, ast.Constant):
-                init_kind = 'const'
-            else:
-                init_kind = None
-                fail('initialize', f'initialize() binds the slot to `{ast.unparse(v)}`, an object shared between groups; '
-                     f'each group needs a fresh value')
-        # --- finalize/__call__: the value of this group's slot
-        fsrc = ast.unparse(fin.node)
-        if 'store[self.handle]' not in fsrc:
-            fail('finalize', 'finalize() does not read store[self.handle]')
-
-        # --- the fold itself
-        name = f.name
-        writes_of = lambda m: [e for e in m.events if e[0] in ('write', 'aug', 'mut')]
-        if name == 'count' and f.intypes[0] is ASTERISK:
-            for value, slot, order, m in cases:
-                w = writes_of(m)
-                if m.reads_operand:
-                    fail('fold', 'count(*) counts rows and must not depend on an operand')
-                    break
-                if w != [('aug', 'Add', 1)]:
-                    fail('fold', f'count(*) must add 1 for every row; update() performs {w}')
-                    break
-            if init_kind != 'zero':
-                fail('zero', 'count starts from the zero of its type (self.dtype())')
-        elif name == 'count':
-            for value, slot, order, m in cases:
-                w = writes_of(m)
-                want = [('aug', 'Add', 1)] if value is not None else []
-                if w != want:
-                    fail('fold', f'count(x) counts non-NULL values: for a {"NULL" if value is None else "non-NULL"} value '
-                         f'update() performs {w}, expected {want}')
-                    break
-            if init_kind != 'zero':
-                fail('zero', 'count starts from the zero of its type (self.dtype())')
-        elif name == 'sum':
-            t = f.intypes[0]
-            mut = MUTATOR_FOR.get(t)
-            for value, slot, order, m in cases:
-                w = writes_of(m)
-                want = [] if value is None else ([('mut', mut, (value,))] if mut else [('aug', 'Add', value)])
-                if w != want:
-                    fail('fold', f'sum over {tname(t)} adds non-NULL values'
-                         + (f' with {mut}()' if mut else ' with +=')
-                         + f': for a {"NULL" if value is None else "non-NULL"} value update() performs {w}')
-                    break
-            if init_kind != 'zero':
-                fail('zero', 'sum starts from the zero of its accumulator type (self.dtype())')
-        elif name in ('min', 'max'):
-            better = 'lt' if name == 'min' else 'gt'
-            for value, slot, order, m in cases:
-                w = writes_of(m)
-                if value is None:
-                    want = [[]]
-                elif slot is None:
-                    want = [[('write', value)]]
-                elif order == better:
-                    want = [[('write', value)]]
-                elif order == 'eq':
-                    want = [[], [('write', value)], [('write', slot)]]
-                else:
-                    want = [[], [('write', slot)]]
-                if w not in want:
-                    fail('fold', f'{name} keeps the {"smallest" if name == "min" else "largest"} non-NULL value: with value '
-                         f'{"NULL" if value is None else "zero/empty" if value is VALZ else "non-NULL"}, current '
-                         f'{"NULL" if slot is None else "zero/empty" if slot is CURZ else "set"}, value '
-                         f'{ {"lt": "<", "eq": "==", "gt": ">"}[order]} current, update() performs {w}')
-                    break
-            if init_kind != 'null':
-                fail('zero', f'{name} of no value is NULL: the slot must start as None')
-        elif name == 'first':
-            for value, slot, order, m in cases:
-                w = writes_of(m)
-                want = [[('write', value)]] if slot is None else [[]]
-                if slot is None and value is None:
-                    want.append([])
-                if w not in want:
-                    fail('fold', f'first keeps the first non-NULL value and never overwrites it: with current '
-                         f'{"NULL" if slot is None else "set"} and a {"NULL" if value is None else "non-NULL"} value update() performs {w}')
-                    break
-            if init_kind != 'null':
-                fail('zero', 'first of no value is NULL: the slot must start as None')
-        elif name == 'last':
-            for value, slot, order, m in cases:
-                w = writes_of(m)
-                if w != [('write', value)]:
-                    fail('fold', f'last takes the value of every row in turn: with a {"NULL" if value is None else "non-NULL"} '
-                         f'value update() performs {w}')
-                    break
-            if init_kind != 'null':
-                fail('zero', 'last of no value is NULL: the slot must start as None')
-        else:
-            res.info(f'new-instance: aggregate {f.label} has no contract on record (isolation checked only)')
-        if len(res.findings) == n0:
-            res.ok({'aggregate': f.label, 'class': ci.name, 'cases': len(cases), 'initial': init_kind})
-    return res
